@@ -91,6 +91,9 @@ class CBase58Data(bytes):
     """
     def __new__(cls, s):
         k = decode(s)
+        if len(k) < 5:
+            # a version byte and a four-byte checksum: with fewer bytes the slices below overlap
+            raise Base58ChecksumError('Base58 string too short to hold a version byte and checksum: %d bytes' % len(k))
         verbyte, data, check0 = k[0:1], k[1:-4], k[-4:]
         check1 = bitcoin.core.Hash(verbyte + data)[:4]
         if check0 != check1:
